@@ -2,18 +2,11 @@
    The tables are the regenerated runtime values of lua.py; the decidable side conditions
    are recomputed on them by vm_compute on every run; the theorems quantify over all
    byte strings of any length. *)
-From PV Require Import Base.Prelude Base.Utf8 Generated.T_p8scii Model.P8scii Model.P8sciiInst Proofs.P8sciiProofs.
+From PV Require Import Base.Prelude Base.Utf8 Generated.T_p8scii Model.P8scii Model.P8sciiInst Proofs.P8sciiProofs Proofs.P8sciiTable.
 
 Notation p2u := p8_p2u.
 Notation u2p := p8_u2p.
 Notation spelling := p8_spelling.
-
-Lemma table_ok_now : P8scii.table_ok p8scii_charset u2p_items width_items = true.
-Proof. vm_compute. reflexivity. Qed.
-Lemma scalars_ok_now : scalars_ok p8scii_charset = true.
-Proof. vm_compute. reflexivity. Qed.
-Lemma prefix_free_now : P8scii.prefix_free p8scii_charset = true.
-Proof. vm_compute. reflexivity. Qed.
 
 (* converting any byte string to Unicode text and back returns the original bytes *)
 Theorem C15_roundtrip : forall bs, Forall byte bs -> u2p (p2u bs) = Ok bs.
